@@ -51,8 +51,8 @@ impl Family for C11Family {
 
     fn total(&self, tier: Tier) -> u64 {
         match tier {
-            Tier::Quick => CELLS * 10,
-            Tier::Thorough => CELLS * 2_000,
+            Tier::Quick => CELLS * 200,
+            Tier::Thorough => CELLS * 20_000,
         }
     }
 
